@@ -743,6 +743,76 @@ fn sweep_real_scale(ctx: &Ctx, thorough: bool) -> Tally {
     t
 }
 
+/// zones with more local time types than a TZif file can carry (the constructors do not limit their number): indices that
+/// agree modulo 256 / 64 carry different offsets and are visited next to each other and two transitions apart
+fn sweep_many_types(ctx: &Ctx, thorough: bool) -> Tally {
+    let cyc = ctx.cyc;
+    let ks: &[usize] = if thorough { &[256, 257, 300, 513, 1030] } else { &[257, 300, 513] };
+    let mut work = vec![];
+    for &k in ks {
+        for pat in 0..5usize {
+            for rule_kind in 0..2usize {
+                work.push((k, pat, rule_kind));
+            }
+        }
+    }
+    let t = work
+        .par_iter()
+        .map(|&(k, pat, rule_kind)| {
+            let mut tl = Tally::default();
+            let r = guard(|| {
+                let mut tl = Tally::default();
+                let types: Vec<MType> = (0..k).map(|i| MType::new(1800 * ((i * 7) % 11) as i32 - 9000, i % 2 == 1, Some(&format!("T{:04}", i)))).collect();
+                let n = 24usize;
+                let idx: Vec<usize> = (0..n)
+                    .map(|j| match pat {
+                        0 => if j % 2 == 0 { 1 + j / 2 } else { (257 + j / 2) % k },
+                        1 => (1 + j * 255) % k,
+                        2 => match j % 3 { 0 => 256 % k, 1 => 0, _ => (512 + j) % k },
+                        3 => (j * 64) % k,
+                        _ => match j % 4 { 0 => 1, 1 => 2, 2 => (257) % k, _ => (258) % k },
+                    })
+                    .collect();
+                let times: Vec<i64> = (0..n).map(|j| 8_640_000 + 100_000 * j as i64 + (j % 2) as i64).collect();
+                let rule = if rule_kind == 1 { Some(MRule::Fixed(types[idx[n - 1]])) } else { None };
+                let z = MZone { trans: times.iter().cloned().zip(idx.iter().cloned()).collect(), types, leaps: vec![], rule };
+                let iz = ImplZone::from_model(&z).unwrap();
+                let zr = iz.zref().unwrap();
+                tl.zones += 1;
+                let mut ls: Vec<i64> = vec![];
+                for j in 0..n {
+                    let ob = if j == 0 { z.types[0].off } else { z.types[idx[j - 1]].off } as i64;
+                    let oa = z.types[idx[j]].off as i64;
+                    for o in [ob, oa] {
+                        for d in -1..=1 {
+                            ls.push(times[j] + o + d);
+                        }
+                    }
+                    ls.push(times[j] + (ob + oa) / 2);
+                    ls.push(times[j] + 50_000 + oa);
+                }
+                // in time order, then in reverse (what an earlier search leaves behind differs)
+                ls.sort();
+                ls.dedup();
+                let rev: Vec<i64> = ls.iter().rev().cloned().collect();
+                for l in ls.into_iter().chain(rev) {
+                    if let Some(f) = Fields::of_local(cyc, l, 123) {
+                        check_search(ctx, &z, zr, &f, "many_types", &mut tl);
+                    }
+                }
+                tl
+            });
+            match r {
+                Ok(t) => tl = tl.merge(t),
+                Err(m) => ctx.rec.violation("many_types", json!({"kind":"many_types","k":k,"pattern":pat,"rule":rule_kind}), json!("no panic"), json!(m)),
+            }
+            tl
+        })
+        .reduce(Tally::default, Tally::merge);
+    ctx.rec.sub("many_types", t.json());
+    t
+}
+
 /// leap-second zones with offsets at the ends of the i32 range (count-scale vs UTC-scale bounds differ by the correction)
 fn sweep_leap_extreme(ctx: &Ctx) -> Tally {
     let cyc = ctx.cyc;
@@ -1277,6 +1347,8 @@ pub fn run_sweeps(ctx: &Ctx, tabs: &Tables, thorough: bool, light: bool) -> Tall
     total = total.merge(sweep_real_scale(ctx, thorough));
     // 2b. leap seconds x offsets at the ends of the i32 range
     total = total.merge(sweep_leap_extreme(ctx));
+    // 2b'. more than 256 local time types
+    total = total.merge(sweep_many_types(ctx, thorough));
     // 2c. both ends of the supported instant range
     total = total.merge(sweep_range_ends(ctx));
     // 3. rule only
